@@ -22,7 +22,9 @@ DESIGN_REF = "DESIGN.md section 4 / C11"
 CHUNK = 1
 RULE = ("grid: 6 objectives x 3 boxes x 5 starts x 4 projected-gradient directions x "
         "iteration index {0,3} x evaluation cap 1..20 x 2 tolerance triples (complete "
-        "product, calls with a non-descent direction skipped); script: all 25^d answer "
+        "product, calls with a non-descent direction skipped), plus history letters {wrapper "
+        "last evaluated another point, objective redefined since the start was evaluated} "
+        "for caps {1,2,3,5,20}; script: all 25^d answer "
         "scripts, d<=3 (quick) / d<=4 (thorough), x 3 boxes x iteration {0,3} x caps; every "
         "call runs the real line_search on a real ScalarFunction; oracle: every evaluated "
         "point inside the box (exact), evaluations <= cap, result None or a step in "
@@ -68,6 +70,8 @@ STARTS = [np.array([0.7, 1.1]), np.array([-1.3, 0.4]), np.array([1.9, 2.1]),
 TSTEPS = [0.01, 0.3, 1.0, 10.0]
 TOLS = [(1e-3, 0.9, 0.1), (1e-4, 0.1, 1e-5)]
 
+HCAPS = (1, 2, 3, 5, 20)     # caps under which the history letters are explored
+
 FL = [-5.0, -1e-6, 0.0, 1e-6, 5.0]
 GLF = [2.0, 0.1, 0.0, -0.5, -50.0]       # multiples of the start slope
 
@@ -99,15 +103,19 @@ def amax_of(x0, d, lb, ub, it, user=1e8):
     return min(c)
 
 
-def one_call(f, g, x0, d, lb, ub, it, cap, tol, f_eval=None):
+def one_call(f, g, x0, d, lb, ub, it, cap, tol, f_eval=None, hist="fresh"):
     """One real line_search call; returns (violations, info)."""
     from lbfgsb.linesearch import line_search
     from lbfgsb.scalar_function import ScalarFunction
     pts = []
 
+    shift = [0.0]
+    nuser = [0]
+
     def ff(x):
         pts.append(np.array(x, copy=True))
-        return f(x)
+        nuser[0] += 1
+        return f(x) + shift[0]
 
     def gg(x):
         pts.append(np.array(x, copy=True))
@@ -115,7 +123,17 @@ def one_call(f, g, x0, d, lb, ub, it, cap, tol, f_eval=None):
     sf = ScalarFunction(ff, x0, (), gg, None, (lb, ub))
     f0 = sf.fun(x0)
     g0 = sf.grad(x0)
+    # history letter: what happened between the evaluation of the start and the search.
+    # 'moved': the wrapper last evaluated another point (a failed search from the same
+    # start is retried after the memory reset); 'redef': the objective was redefined
+    # (shifted down by 10) and the caller hands over the start value of the new definition
+    if hist == "moved":
+        sf.fun(np.clip(x0 + 0.37 * min(1.0, amax_of(x0, d, lb, ub, 3)) * d, lb, ub))
+    elif hist == "redef":
+        shift[0] = -10.0
+        f0 = f0 - 10.0
     n0 = sf.nfev
+    nuser[0] = 0
     pts.clear()
     boxed = not (np.isinf(lb).any() or np.isinf(ub).any())
     x_in, d_in = x0.copy(), d.copy()
@@ -126,8 +144,8 @@ def one_call(f, g, x0, d, lb, ub, it, cap, tol, f_eval=None):
     if bad:
         out.append(("trial_point_outside_box", dict(point=bad[0], lb=lb, ub=ub,
                                                      n_outside=len(bad))))
-    if sf.nfev - n0 > cap:
-        out.append(("over_budget", dict(evals=sf.nfev - n0, cap=cap)))
+    if max(sf.nfev - n0, nuser[0]) > cap:
+        out.append(("over_budget", dict(evals=max(sf.nfev - n0, nuser[0]), cap=cap)))
     ntrial = len({p.tobytes() for p in pts})
     if a is None:
         return out, dict(res="none", ntrial=ntrial)
@@ -135,7 +153,7 @@ def one_call(f, g, x0, d, lb, ub, it, cap, tol, f_eval=None):
     if not (0 < a <= am * (1 + 1e-12)):
         out.append(("step_out_of_range", dict(alpha=a, alpha_max=am)))
     xa = np.clip(x_in + a * d_in, lb, ub)
-    fa = (f_eval or f)(xa)
+    fa = (f_eval or f)(xa) + shift[0]
     if not fa < f0:
         out.append(("step_not_strictly_lower", dict(alpha=a, f_alpha=fa, f0=f0)))
     return out, dict(res="step", ntrial=ntrial)
@@ -194,7 +212,8 @@ def run(case):
         x0 = np.clip(STARTS[case["start"]] + (SHIFT[case["var"]] if case["start"] < 5 else 0.0), lb, ub)
         g0 = g(x0)
         d = np.clip(x0 - TSTEPS[case["ts"]] * g0, lb, ub) - x0
-        out, info = one_call(f, g, x0, d, lb, ub, case["it"], case["cap"], TOLS[case["tol"]])
+        out, info = one_call(f, g, x0, d, lb, ub, case["it"], case["cap"], TOLS[case["tol"]],
+                             hist=case.get("hist", "fresh"))
         return dict(viol=[V(s, **d) for s, d in out], outcome=info["res"],
                     nontrivial=core.case_hash(case))
     viol, keys, outc, nex = [], [], Counter(), 0
@@ -210,11 +229,13 @@ def run(case):
                 continue
             for it in (0, 3):
                 for cap in range(1, 21):
-                    for tl in range(len(TOLS)):
+                    for tl, hs in [(t_, "fresh") for t_ in range(len(TOLS))] + \
+                            ([(0, "moved"), (0, "redef")] if cap in HCAPS else []):
                         sub = dict(part="grid1", var=case["var"], obj=case["obj"],
                                    box=case["box"], start=case["start"], ts=ts, it=it,
-                                   cap=cap, tol=tl)
-                        out, info = one_call(f, g, x0.copy(), d.copy(), lb, ub, it, cap, TOLS[tl])
+                                   cap=cap, tol=tl, hist=hs)
+                        out, info = one_call(f, g, x0.copy(), d.copy(), lb, ub, it, cap, TOLS[tl],
+                                             hist=hs)
                         nex += 1
                         outc[f"{info['res']}_trials{min(info['ntrial'], 6)}"] += 1
                         if info["ntrial"] >= 2 or info["res"] == "none":
